@@ -620,6 +620,10 @@ func init() {
 	mutant("late-frames-after-our-reset-kill-the-connection", "late-frames-on-reset-streams", "serverConn.go", "						if resetSent {\n							if err := sc.discardFrame(fr); err != nil {", "						if resetSent && sc.debug {\n							if err := sc.discardFrame(fr); err != nil {")
 	mutant("late-frames-after-our-reset-dropped-unseen", "late-frames-on-reset-streams", "serverConn.go", "						if resetSent {\n							if err := sc.discardFrame(fr); err != nil {\n								sc.writeError(nil, err)\n								break loop\n							}\n\n							continue\n						}", "						if resetSent {\n							continue\n						}")
 	mutant("frames-on-a-stream-the-peer-closed-accepted", "late-frames-on-reset-streams", "serverConn.go", "						sc.writeGoAway(fr.Stream(), StreamClosedError, \"frame on closed stream\")\n\n						if canCloseAfterGoAway() {\n							break loop\n						}\n", "")
+	allMutants = append(allMutants, Mutant{Name: "open-block-mark-stored-after-the-whole-frame-refusal", Rule: "block-remainder-decoded", Subs: []Subst{
+		{File: "serverConn.go", Old: "\tstrm.blockOpen = !fr.Flags().Has(FlagEndHeaders)\n\n\t// Appending to the stream's own buffer", New: "\t// Appending to the stream's own buffer"},
+		{File: "serverConn.go", Old: "\treq := &strm.ctx.Request\n\n\tvar err error\n\n\tfor len(b) > 0 {", New: "\treq := &strm.ctx.Request\n\n\tstrm.blockOpen = !fr.Flags().Has(FlagEndHeaders)\n\n\tvar err error\n\n\tfor len(b) > 0 {"},
+	}})
 	mutant("refused-stream-forgotten", "late-frames-on-reset-streams", "serverConn.go", "					// turns up later is out of order.\n					markClosed(fr.Stream(), true)\n", "					// turns up later is out of order.\n")
 	mutant("refused-stream-remembered-as-closed-by-the-peer", "late-frames-on-reset-streams", "serverConn.go", "					// turns up later is out of order.\n					markClosed(fr.Stream(), true)", "					// turns up later is out of order.\n					markClosed(fr.Stream(), false)")
 	mutant("refused-header-block-not-decoded", "late-frames-on-reset-streams", "serverConn.go", "					if err := sc.discardFrame(fr); err != nil {\n						sc.writeError(nil, err)\n						break loop\n					}\n\n					continue\n				}\n\n				if fr.Stream() <= highID {", "					if fr.Type() == FrameData {\n						sc.consumeConnRecvWindow(fr.Len())\n					}\n\n					continue\n				}\n\n				if fr.Stream() <= highID {")
